@@ -564,6 +564,12 @@ func (h *httpServerHandler) handleGet(ctx context.Context, w http.ResponseWriter
 		return
 	}
 
+	// A listening stream belongs to a session: refuse it when sessions are disabled
+	if !h.enableSession || h.sessionManager == nil {
+		http.Error(w, "GET method requires session management", http.StatusMethodNotAllowed)
+		return
+	}
+
 	// Check if there's a session ID
 	sessionID := r.Header.Get(httputil.SessionIDHeader)
 	if sessionID == "" {
